@@ -337,6 +337,29 @@ func (s *System) findMailbox(ref *Ref) vivid.Mailbox {
 			return v
 		}
 	}
-	// 若上述皆未命中，返回系统根 Actor 的 Mailbox 作为默认兜底方案，保证 Mailbox 一定可用。
-	return s.Mailbox()
+	// 根 Actor 自身不在 actorContexts 中注册，指向根路径的引用（如顶级 Actor 的父级引用）使用根 Actor 的邮箱。
+	if ref.GetPath() == s.Ref().GetPath() {
+		return s.Mailbox()
+	}
+	// 若上述皆未命中，说明目标不存在或已终止（且引用未缓存其邮箱），消息应进入死信；
+	// 若直接交给根 Actor 的邮箱，根 Actor 会将其当作发给自身的消息：用户消息被静默丢弃，而 Kill 会停止整个系统。
+	return &deadLetterMailbox{system: s}
 }
+
+// deadLetterMailbox 是不存在（或已终止）的本地目标的邮箱：入列的消息被包装为死信交给根 Actor 发布。
+type deadLetterMailbox struct {
+	system *System
+}
+
+func (m *deadLetterMailbox) Enqueue(envelop vivid.Envelop) {
+	m.system.TellSelf(ves.DeathLetterEvent{
+		Envelope: envelop,
+		Time:     time.Now(),
+	})
+}
+
+func (m *deadLetterMailbox) Pause() {}
+
+func (m *deadLetterMailbox) Resume() {}
+
+func (m *deadLetterMailbox) IsPaused() bool { return false }
